@@ -150,8 +150,8 @@ def compare_case(prop, m, cfg, src, model, real):
             vio = dict(kind='well-formed module rejected', real=real)
         else:
             exp_rst = oracle.expected_rst(spec, 'T', 'M', '#')
-            pe = oracle.project(prop, exp_rst, spec)
-            pr = oracle.project(prop, real['rst'], real['entries'])
+            pe = oracle.project(prop, oracle.neutralise(exp_rst), spec)
+            pr = oracle.project(prop, oracle.neutralise(real['rst']), real['entries'])
             if pe != pr:
                 vio = dict(kind='output differs from what the module prescribes', expected=pe, real=pr)
     return dis, vio, tags
